@@ -77,13 +77,20 @@ fn fmt_blocks(b: &[Vec<T3>]) -> String {
 /// decoded content of every batch file below `base`
 fn dump_batches<C: BatchCodec>(codec: &C, base: &Path, lab: impl Fn(C::Label) -> u64) -> Vec<Vec<usize>> {
     let mut out = Vec::new();
+    // files (at any depth) that do not follow the naming scheme this inspection knows
+    let mut unknown = 0usize;
+    fn count_files(p: &Path) -> usize {
+        let Ok(rd) = std::fs::read_dir(p) else { return 0 };
+        rd.flatten().map(|e| if e.path().is_dir() { count_files(&e.path()) } else { 1 }).sum()
+    }
     let Ok(rd) = std::fs::read_dir(base) else { return out };
     for d in rd.flatten() {
         if !d.path().is_dir() { continue; }
         let Ok(files) = std::fs::read_dir(d.path()) else { continue };
         for f in files.flatten() {
             let name = f.file_name().to_string_lossy().to_string();
-            let Some(rest) = name.strip_prefix("sorted_batch_") else { continue };
+            if f.path().is_dir() { unknown += count_files(&f.path()); continue; }
+            let Some(rest) = name.strip_prefix("sorted_batch_") else { unknown += 1; continue };
             let ids: Vec<usize> = rest.split('_').filter_map(|t| t.parse().ok()).collect();
             if ids.len() != 3 { continue; }
             let mut v = ids.clone();
@@ -101,6 +108,10 @@ fn dump_batches<C: BatchCodec>(codec: &C, base: &Path, lab: impl Fn(C::Label) ->
         }
     }
     out.sort();
+    // the layout of the sorter's temporary files is an internal detail: when nothing follows
+    // the scheme known here but other files exist, the batch files are reported as not
+    // inspected (a single marker entry) instead of as absent
+    if out.is_empty() && unknown > 0 { return vec![vec![usize::MAX]]; }
     out
 }
 
